@@ -2747,7 +2747,10 @@ util::Result<void> CWallet::DisplayAddress(const CTxDestination& dest)
 void CWallet::LoadLockedCoin(const COutPoint& coin, bool persistent)
 {
     AssertLockHeld(cs_wallet);
-    m_locked_coins.emplace(coin, persistent);
+    // A persistent lock upgrades an existing memory-only lock: the database record is (about to be) written,
+    // so UnlockCoin must know that it has to erase it again.
+    const auto [it, inserted] = m_locked_coins.emplace(coin, persistent);
+    if (!inserted && persistent) it->second = true;
 }
 
 bool CWallet::LockCoin(const COutPoint& output, bool persist)
